@@ -5,7 +5,7 @@ shape) x identifier rotation x separators x line ends x form feed x tabs x missi
 Reference = Python's line rule and the property's clauses over the TEXT; Design = parso's
 split_lines / get_definition / get_defined_names and jedi's get_module_names / _names /
 get_definition_*_position / get_line_code transcribed.  Legs:
-  1. TLC exhaustive Design |= Reference (+ a strict run that must rediscover DEV-DunderParam);
+  1. TLC exhaustive Design |= Reference (+ a what-if run StripDunder=TRUE, the code before 7f3412e, that must fail);
   2. spec -> code: emitted cases, Design's predicted get_names() output vs the real one, the
      template's tree shape vs parso's, the Reference's tokens/binding roles vs CPython
      (tokenize + ast);
@@ -58,6 +58,7 @@ CONSTANTS
   MaxMods1 = %(m1)d
   MaxMods2 = %(m2)d
   NNames = %(nn)d
+  StripDunder = %(strip)s
   EmitMod = %(mod)d
   EmitRem = %(rem)d
 %(invs)s
@@ -71,10 +72,10 @@ ALL_TPLS = tuple(range(1, NT + 1))
 PROBE_TPLS = (1, 10, 13, 21, 35)     # a = bb / decorated def / one-line class / for with suite / call with keyword
 
 
-def write_cfg(ctx, name, stmts, m1, m2, nn=5, lo=1, hi=NT, mod=1, rem=0, invs=INVS, emit=False, second=ALL_TPLS):
+def write_cfg(ctx, name, stmts, m1, m2, nn=5, lo=1, hi=NT, mod=1, rem=0, invs=INVS, emit=False, second=ALL_TPLS, strip=False):
     p = os.path.join(ctx.tmp, name)
     with open(p, 'w') as f:
-        f.write(CFG % dict(lo=lo, hi=hi, second=', '.join(map(str, second)), stmts=stmts, m1=m1, m2=m2, nn=nn, mod=mod, rem=rem,
+        f.write(CFG % dict(strip='TRUE' if strip else 'FALSE', lo=lo, hi=hi, second=', '.join(map(str, second)), stmts=stmts, m1=m1, m2=m2, nn=nn, mod=mod, rem=rem,
                            invs='\n'.join('INVARIANT %s' % i for i in invs),
                            emit='CONSTRAINT Emit' if emit else ''))
     return p
@@ -463,6 +464,13 @@ def emit_cases(ctx, label, stmts, m1, m2, mod, rem, parts, timeout, second=ALL_T
         except BaseException as e:  # noqa
             errors.append(e)
 
+    sem = threading.Semaphore(14)
+    inner = work
+
+    def work(i, lo, hi):        # noqa: F811  (at most 14 JVMs at a time)
+        with sem:
+            inner(i, lo, hi)
+
     ths = [threading.Thread(target=work, args=(i, lo, hi)) for i, (lo, hi) in enumerate(bounds)]
     for t in ths:
         t.start()
@@ -477,8 +485,7 @@ def emit_cases(ctx, label, stmts, m1, m2, mod, rem, parts, timeout, second=ALL_T
     agg.wall = max(r.wall for r in results)
     for r in results:
         cs += cases(r)
-    ctx.add_tlc(agg, 'case emission %s (%d partitions, slice %d mod %d)' % (label, len(bounds), rem, mod))
-    return cs
+    return cs, agg, 'case emission %s (%d partitions, slice %d mod %d)' % (label, len(bounds), rem, mod)
 
 
 # ---------------------------------------------------------------- parallel trace validation
@@ -570,8 +577,35 @@ def judge(ctx, rejects, traces, metas, srcs):
 
 def run(ctx):
     quick = ctx.quick
+    # VERIF_C17_REDUCED=1: thorough tier with smaller samples (for busy machines); stated in the evidence
+    reduced = bool(os.environ.get('VERIF_C17_REDUCED')) and not quick
+    ctx.coverage['reduced_thorough'] = reduced
+    if not quick:
+        ctx.coverage['thorough_sizing'] = (
+            'sized for ~20 min on an idle 16-core machine: exhaustive run on MaxStmts=2, MaxMods 2/1 (second statement '
+            'from 5 probe templates); replayed cases are a 1/23 slice of the MaxMods 2/0 space (not of 2/1, and not every '
+            'case as DESIGN 5/C17 planned); 64 corpus variants of <=9000 code points with 25 query positions each (not the '
+            'whole corpus); 20 generated projects; foreign files >16000 code points skipped'
+            + ('; VERIF_C17_REDUCED=1: exhaustive MaxMods 2/0, slice 1/61, 40 corpus variants, 10 projects' if reduced else ''))
+    # case emission for leg 2 runs concurrently with leg 1 (independent TLC processes)
+    box = {}
+
+    def emit():
+        try:
+            if quick:
+                mod = 7
+                box['res'] = emit_cases(ctx, 'quick', 2, 1, 0, mod, ctx.seed % mod, 8, 900)
+            else:
+                mod = 61 if reduced else 23
+                box['res'] = emit_cases(ctx, 'thorough', 2, 2, 0, mod, ctx.seed % mod, 19, 3000,
+                                        second=PROBE_TPLS)
+        except BaseException as e:  # noqa
+            box['err'] = e
+
+    em = threading.Thread(target=emit)
+    em.start()
     # ---- 1. Design |= Reference, exhaustive
-    stmts, m1, m2 = (2, 1, 0) if quick else (2, 2, 1)
+    stmts, m1, m2 = (2, 1, 0) if quick else (2, 2, 0) if reduced else (2, 2, 1)
     second = ALL_TPLS if quick else PROBE_TPLS
     cfg = write_cfg(ctx, 'mc.cfg', stmts, m1, m2, second=second)
     if os.environ.get('VERIF_C17_DEV_SKIP_MC'):      # development aid for mutation experiments only
@@ -581,43 +615,39 @@ def run(ctx):
     if res.violated:
         raise MachineryError('Positions.tla: Design violates Reference (%s); replay the counterexample, then model '
                              'the code as it is / record the finding:\n%s' % (res.violated, res.trace[-1:]))
-    if res.distinct < (3000 if quick else 80000) and not os.environ.get('VERIF_C17_DEV_SKIP_MC'):
+    if res.distinct < (3000 if quick else 60000) and not os.environ.get('VERIF_C17_DEV_SKIP_MC'):
         raise MachineryError('vacuity: only %d states' % res.distinct)
     ctx.coverage['exhaustive'] = True
     ctx.coverage['templates'] = NT
 
-    # ---- 1b. the strict clause must rediscover the known deviation (DEV-DunderParam) and it must reproduce
-    cfg = write_cfg(ctx, 'strict.cfg', 1, 1, 0, lo=10, hi=10, invs=['TextAtPosStrict'])
+    # ---- 1b. what-if StripDunder = TRUE (the code before 7f3412e): TextAtPos must fail, which shows the
+    #          invariant is sensitive; the counterexample must NOT reproduce on the repaired code
+    cfg = write_cfg(ctx, 'whatif.cfg', 1, 1, 0, lo=10, hi=10, invs=['TextAtPos'], strip=True)
     rs = run_tlc('Positions', cfg, workers=4, timeout=600)
-    ctx.add_tlc(rs, 'strict TextAtPos (expects the DEV-DunderParam counterexample)')
-    if rs.violated:
-        text = jutil.dec(rs.trace[-1]['vars']['lay']['text'])
-        s = jutil.script(text, path='/nonexistent_verif_project/' + BUF)
-        lines = text  # noqa
-        bad = []
-        st = L.line_starts(text)
-        for n in s.get_names(all_scopes=True, definitions=True, references=True):
-            off = st[n.line - 1] + n.column
-            if text[off:off + len(n.name)] != n.name:
-                bad.append((n.name, n.line, n.column, text[off:off + len(n.name) + 2]))
-        if bad:
-            ctx.violation('dunder-param:TextAtPos', 'TLC counterexample of TextAtPosStrict reproduces on the real code: '
-                          'Name.name differs from the text at Name.line/column: %s' % bad,
-                          {'source': text, 'bad': bad})
-            ctx.coverage['strict_counterexample'] = {'source': text, 'reproduced': bad}
-        else:
-            ctx.drift({'kind': 'strict-counterexample-not-reproduced', 'source': text})
-    else:
-        ctx.notes.append('strict TextAtPos run found no counterexample')
+    ctx.add_tlc(rs, 'what-if StripDunder=TRUE (TextAtPos must be violated)')
+    if rs.violated != 'TextAtPos':
+        raise MachineryError('what-if StripDunder=TRUE: TLC found no TextAtPos counterexample (%s); the model lost '
+                             'its sensitivity to DEV-DunderParam' % rs.violated)
+    text = jutil.dec(rs.trace[-1]['vars']['lay']['text'])
+    s = jutil.script(text, path='/nonexistent_verif_project/' + BUF)
+    bad = []
+    st = L.line_starts(text)
+    for n in s.get_names(all_scopes=True, definitions=True, references=True):
+        off = st[n.line - 1] + n.column
+        if text[off:off + len(n.name)] != n.name:
+            bad.append((n.name, n.line, n.column, text[off:off + len(n.name) + 2]))
+    ctx.coverage['whatif_StripDunder'] = {'violated': rs.violated, 'counterexample': text, 'reproduced_on_code': bad}
+    if bad:
+        ctx.violation('dunder-param:TextAtPos', 'the counterexample of the old behaviour reproduces on the real code: '
+                      'Name.name differs from the text at Name.line/column: %s' % bad, {'source': text, 'bad': bad})
 
-    # ---- 2. spec -> code
-    if quick:
-        mod = 5
-        cs = emit_cases(ctx, 'quick', 2, 1, 0, mod, ctx.seed % mod, 8, 900)
-    else:
-        mod = 11
-        cs = emit_cases(ctx, 'thorough', 2, 2, 1, mod, ctx.seed % mod, 13, 3000, second=PROBE_TPLS)
-    if len(cs) < (500 if quick else 10000):
+    # ---- 2. spec -> code (the emission JVMs were started before leg 1 and ran alongside it)
+    em.join()
+    if 'err' in box:
+        raise box['err']
+    cs, agg, label = box['res']
+    ctx.add_tlc(agg, label)
+    if len(cs) < (400 if quick else 1200 if reduced else 3000):
         raise MachineryError('too few cases emitted: %d' % len(cs))
     ctx.log('replaying %d TLC cases' % len(cs))
     results = jutil.pmap(replay_case, cs)
@@ -644,7 +674,7 @@ def run(ctx):
     # ---- 3a. generated project
     ctx.log('generated project scenarios')
     base = ctx.sub('projects')
-    pr = jutil.pmap(project_scenario, [(ctx.seed * 1000 + i, base) for i in range(4 if quick else 40)], chunksize=1)
+    pr = jutil.pmap(project_scenario, [(ctx.seed * 1000 + i, base) for i in range(4 if quick else 10 if reduced else 20)], chunksize=1)
     jutil.check_worker_errors(pr)
     for r in pr:
         ctx.count('project_scenarios')
@@ -659,8 +689,8 @@ def run(ctx):
     # ---- 3b. corpus, re-encoded
     ctx.log('corpus driver')
     files = jutil.corpus_files(rng=ctx.rng)
-    nvar = 10 if quick else 160
-    args = [(files[i % len(files)], ctx.seed * 7919 + i, 3500 if quick else 9000, 6 if quick else 25)
+    nvar = 8 if quick else 40 if reduced else 64
+    args = [(files[i % len(files)], ctx.seed * 7919 + i, 3000 if quick else 9000, 6 if quick else 25)
             for i in range(nvar)]
     cr = jutil.pmap(corpus_variant, args, chunksize=1)
     jutil.check_worker_errors(cr)
@@ -680,7 +710,7 @@ def run(ctx):
             blocked[k] = blocked.get(k, 0) + v
     ctx.coverage['corpus_skipped'] = skipped
     ctx.coverage['queries_blocked_by_internal_errors'] = dict(sorted(blocked.items(), key=lambda kv: -kv[1])[:25])
-    if ctx.coverage.get('corpus_variants', 0) < (5 if quick else 60):
+    if ctx.coverage.get('corpus_variants', 0) < (4 if quick else 15 if reduced else 25):
         raise MachineryError('too few corpus variants: %s %s' % (ctx.coverage.get('corpus_variants'), skipped))
 
     nev = sum(len(t) - 1 for t in traces)
